@@ -129,7 +129,11 @@ class ClosedConstraintComponent(ConstraintComponent):
                 "ClosedConstraintComponent must have at most one sh:closed predicate.",
                 "https://www.w3.org/TR/shacl/#ClosedConstraintComponent",
             )
-        assert isinstance(closed_vals[0], rdflib.Literal), "sh:closed must take a xsd:boolean literal."
+        if not isinstance(closed_vals[0], rdflib.Literal):
+            raise ConstraintLoadError(
+                "ClosedConstraintComponent sh:closed must take a xsd:boolean literal.",
+                "https://www.w3.org/TR/shacl/#ClosedConstraintComponent",
+            )
         self.is_closed = bool(closed_vals[0].value)
         self.ignored_props: Set[Union[rdflib.BNode, rdflib.Literal, rdflib.URIRef]] = set()
         for i in ignored_vals:
